@@ -359,6 +359,13 @@ CaseResult run_beyond32(const RunCtx &ctx, TapeReader &t) {
     }
     // segment j covers the fed indices [start_j, start_{j+1})
     std::vector<uint64_t> start;
+    // the builder is also fed the closing point (last key + 1, n): when the line through the keys cannot absorb it (e.g. eps = 0 with
+    // stride 2), it opens a final segment of its own, which covers none of the n key points
+    const uint64_t closing_x = base + (n - 1) * stride + 1;
+    if (segs.size() >= 2 && (uint64_t) segs.back().get_first_x() == closing_x) {
+        segs.pop_back();
+        res.label("closing_point_in_a_segment_of_its_own");
+    }
     for (size_t j = 0; j < segs.size(); ++j) {
         uint64_t fx = (uint64_t) segs[j].get_first_x();
         if (fx < base || (fx - base) % stride || (fx - base) / stride >= n) {
